@@ -92,11 +92,11 @@ func C07(p *core.Prog, r *core.Report) {
 			r.Bad("REACH", want, "-", "a function the property anchors is no longer reachable from the parser entry points: its trap sites are not being checked")
 		}
 	}
-	runTraps(p, r, reach)
+	runTraps(p, r, reach, true)
 }
 
 // runTraps applies every trap rule to the reachable code.
-func runTraps(p *core.Prog, r *core.Report, reach map[*ssa.Function]bool) {
+func runTraps(p *core.Prog, r *core.Report, reach map[*ssa.Function]bool, parser bool) {
 	bce, ver, err := BCE(p)
 	if err != nil {
 		r.Und("IDX", "compiler-report", "-", err.Error())
@@ -227,7 +227,7 @@ func runTraps(p *core.Prog, r *core.Report, reach map[*ssa.Function]bool) {
 			if fl, ok := n.(*ast.FuncLit); ok && fl.Body != body {
 				return false
 			}
-			if c, ok := n.(*ast.CallExpr); ok && core.IsBuiltin(info, c, "panic") {
+			if c, ok := n.(*ast.CallExpr); ok && parser && core.IsBuiltin(info, c, "panic") {
 				nnN[label+"|panic"]++
 				key := fmt.Sprintf("%s|panic#%d", label, nnN[label+"|panic"])
 				if why, ok := reviewedPanics[label]; ok {
@@ -258,6 +258,9 @@ func runTraps(p *core.Prog, r *core.Report, reach map[*ssa.Function]bool) {
 		t.commit(info, body, label, clears)
 	}
 	for fn, want := range commitPoints {
+		if !parser {
+			break
+		}
 		if clears[fn] < want {
 			r.Bad("COMMIT", fn+"|clear", "-", fmt.Sprintf("%d of the %d reviewed commit points (state.Clear()) of this sub-parser remain: without the commit, tryAllParsers backtracks over the error and the record loop skips the malformed line instead of reporting it", clears[fn], want))
 		} else {
@@ -479,5 +482,5 @@ func RepairNoPanic(p *core.Prog, r *core.Report) {
 	for _, m := range missing {
 		r.Und("REACH", m, "-", "anchor-unresolved")
 	}
-	runTraps(p, r, reach)
+	runTraps(p, r, reach, false)
 }
